@@ -135,3 +135,9 @@ impl Str {
     #[verifier::external_body]
     pub fn vx_to_tokens(&self, t: &mut TokenStream) ensures final(t)@ == old(t)@.add(Seq::<Tok>::empty().push(Tok::S(self@))) { unimplemented!() }
 }
+// interpolating `Option<&str>` (`#path` with path = Path::to_str()): the string literal, or nothing
+pub open spec fn opt_str_toks(o: Option<&Str>) -> Seq<Tok> { match o { Some(x) => Seq::<Tok>::empty().push(Tok::S(x@)), None => Seq::<Tok>::empty() } }
+impl<'a> VxOptToTokens for Option<&'a Str> {
+    #[verifier::external_body]
+    fn vx_to_tokens(&self, t: &mut TokenStream) ensures final(t)@ == old(t)@.add(opt_str_toks(*self)) { unimplemented!() }
+}
